@@ -81,9 +81,10 @@ class Agg:
 
 
 class Ref:
-    def __init__(self, obj, path=()):
+    def __init__(self, obj, path=(), mut=False):
         self.obj = obj
         self.path = tuple(path)
+        self.mut = mut
 
     def __repr__(self):
         return "&%s%s" % (self.obj.name, "".join(
@@ -259,7 +260,7 @@ class Executor:
     def pointee(self, s):
         if s.pointee is None:
             t = re.sub(r"^(&(mut )?|\*(const|mut) )", "", s.ty)
-            m = re.match(r"^(?:std::rc::|std::sync::|alloc::rc::|alloc::sync::|std::boxed::)?(?:Rc|Arc|Box|Ref|RefMut|MutexGuard)<(?:'_, )?(.*)>$", t)
+            m = re.match(r"^(?:std::rc::|std::sync::|alloc::rc::|alloc::sync::|std::boxed::|std::cell::|cell::|rc::|sync::)?(?:Rc|Arc|Box|Ref|RefMut|MutexGuard|RefCell|Cell)<(?:'_, )?(.*)>$", t)
             if m:
                 t = m.group(1)
             s.pointee = Obj("*" + s.name, None)
@@ -489,7 +490,7 @@ class Executor:
         if k == "ref":
             o, p = self.resolve(st, fr, rv[2])
             # a reference to a bare variant payload never occurs; to `(x as V).0` it does
-            return Ref(o, p)
+            return Ref(o, p, mut=("mut" in rv[1]))
         if k == "discr":
             o, p = self.resolve(st, fr, rv[1])
             v = self.read(st, o, p, None)
@@ -800,12 +801,48 @@ class Executor:
         self.cfg.opaque[callee] = self.cfg.opaque.get(callee, 0) + 1
         ret = self.fresh(dty, "r%d" % len(st.trace)) if nxt is not None else None
         ev = self.event(st, "call", callee, args, ret)
+        self.havoc_mut_refs(st, args, len(st.trace))
         if nxt is None:
             ev.kind = "panic" if re.search(r"panic|unwrap_failed|expect_failed|unreachable|begin_panic", callee) else "diverge"
             return self.finish(st, "panic")
         o, p = self.resolve(st, fr, dest)
         self.write(st, o, p, ret)
         return [(st, nxt)]
+
+    def havoc_mut_refs(self, st, args, tag):
+        """an opaque callee may write through every `&mut` it receives (directly or captured in a
+        closure environment): forget what is known about those locations, if they hold scalars or
+        enums (structured symbolic objects are already unconstrained)"""
+        seen = set()
+
+        def visit(v, depth=0):
+            if id(v) in seen or depth > 4:
+                return
+            seen.add(id(v))
+            if isinstance(v, Ref):
+                if v.mut:
+                    try:
+                        cur = self.read(st, v.obj, v.path, None)
+                    except Unsupported:
+                        return
+                    if z3.is_bool(cur):
+                        self.write(st, v.obj, v.path, z3.Bool("b_havoc_%d_%d" % (tag, next(_ids))))
+                    elif z3.is_bv(cur):
+                        self.write(st, v.obj, v.path, z3.BitVec("i_havoc_%d_%d" % (tag, next(_ids)), cur.size()))
+                    elif isinstance(cur, Enum):
+                        self.write(st, v.obj, v.path, Enum(cur.ty, z3.Int("d_havoc_%d_%d" % (tag, next(_ids))), {}, "havoc%d" % tag))
+                    elif isinstance(cur, Agg):
+                        if (cur.ty or "").startswith("["):
+                            self.write(st, v.obj, v.path, Sym(cur.ty, "havoc%d" % tag))
+                        else:
+                            for x in cur.fields:
+                                visit(x, depth + 1)
+            elif isinstance(v, Agg):
+                for x in v.fields:
+                    visit(x, depth + 1)
+
+        for a in args:
+            visit(a)
 
     def resolve_callee(self, callee, args):
         for rx, finder in self.cfg.inline:
@@ -1329,8 +1366,34 @@ def _int_method(ex, st, fr, callee, args, dty):
         b = ex.as_bv(args[1], a.size())
         mx = z3.BitVecVal((1 << a.size()) - 1, a.size())
         return [(st, z3.If(z3.BVAddNoOverflow(a, b, False), a + b, mx))]
-    if meth in ("to_ne_bytes", "from_ne_bytes", "to_le_bytes", "from_le_bytes"):
-        return [(st, args[0])]     # byte-array view of the same integer
+    return None
+
+
+def _int_bytes(ex, st, fr, callee, args, dty):
+    """to_ne_bytes / from_ne_bytes: a byte array is kept as a view of the integer it encodes"""
+    m = re.search(r"<impl (\w+)>::(\w+)$", callee)
+    ty, meth = m.group(1), m.group(2)
+    bits = INT_BITS[ty]
+    v = args[0]
+    if meth.startswith("to_"):
+        a = Agg("[u8; %d]" % (bits // 8), [ex.as_bv(v, bits)], "bytes")
+        a.bytes_of = True
+        return [(st, a)]
+    if isinstance(v, Agg) and getattr(v, "bytes_of", False):
+        return [(st, v.fields[0])]
+    if isinstance(v, Sym):
+        if "as_int" not in v.tags:
+            v.tags["as_int"] = z3.BitVec("i_bytes_%d" % v.id, bits)
+        return [(st, v.tags["as_int"])]
+    if isinstance(v, Agg):
+        # an array of known bytes that was not written through an opaque call: all zero or unknown
+        return [(st, z3.BitVec("i_bytes_%d" % next(_ids), bits))]
+    return None
+
+
+def _unused_tail():
+    if False:
+        return None
     return None
 
 
@@ -1401,6 +1464,7 @@ HANDLERS = [
     (r"^std::mem::replace::<.*>$", _mem_replace),
     (r"^std::mem::forget::<.*>$", _mem_forget),
     (r"^(std::mem::)?drop::<.*>$", _drop_fn),
+    (r"^core::num::<impl \w+>::(to|from)_(ne|le|be)_bytes$", _int_bytes),
     (r"^core::num::<impl \w+>::\w+$", _int_method),
     (r"^(std::)?cmp::(min|max)::<.*>$", _cmp_min),
     (r"^<(Rc|Arc|std::rc::Rc|std::sync::Arc)<.*> as Clone>::clone$", _clone),
